@@ -14,6 +14,8 @@ CONSTANTS
   Objs <- TObjs
   Planned = FALSE
   MaxPlan = 36
+  InitStores = {}
+  LogSched = FALSE
   KeepLog = FALSE
   MenuGuard <- TGuard
 VIEW TView
